@@ -79,7 +79,7 @@ theorem c10_lockset : locksetOK ["ClientStream"] GcpVerif.Generated.accesses = t
 theorem c06_no_self_acquire : noSelfAcquire GcpVerif.Generated.acquisitions = true := by decide +kernel
 
 /-- **C06 (per run)** the acquisition order of the current sources is acyclic
-    (picker.mu < gb.mu < ref.mu; gme.mu < me.mu) -/
+    (gb.pickMu < gb.mu < ref.mu; gme.mu < me.mu) -/
 theorem c06_order_acyclic : orderAcyclic GcpVerif.Generated.acquisitions = true := by decide +kernel
 
 end GcpVerif.Sync
